@@ -130,7 +130,9 @@ impl HostCtx {
                 let dst = sock(t[2]);
                 let payload = unhex(t[3]);
                 match self.slots.get(s).and_then(|x| x.as_ref()) {
-                    Some(Obj::Udp(u)) => match now_or(u.send_to(&payload, dst)) {
+                    // the two send entry points are interchangeable: datagrams of odd length go through
+                    // `try_send_to`, the others through `send_to`
+                    Some(Obj::Udp(u)) => match if payload.len() % 2 == 1 { Some(u.try_send_to(&payload, dst)) } else { now_or(u.send_to(&payload, dst)) } {
                         Some(Ok(n)) => format!("ok {n}"),
                         Some(Err(e)) => format!("err {}", errkind(&e)),
                         None => "pending?".into(),
@@ -193,7 +195,24 @@ impl HostCtx {
                             u.set_multicast_loop_v4(on)
                         };
                         match r {
-                            Ok(()) => "ok".into(),
+                            Ok(()) => {
+                                let got = if t[0] == "udp_bcast" {
+                                    if addrs(|m| m.v6) {
+                                        // SO_BROADCAST is documented as a no-op on IPv6 sockets
+                                        return "ok".into();
+                                    }
+                                    u.broadcast()
+                                } else if addrs(|m| m.v6) {
+                                    u.multicast_loop_v6()
+                                } else {
+                                    u.multicast_loop_v4()
+                                };
+                                match got {
+                                    Ok(b) if b == on => "ok".into(),
+                                    Ok(b) => format!("ok getter-says-{b}"),
+                                    Err(e) => format!("ok getter-err-{}", errkind(&e)),
+                                }
+                            }
                             Err(e) => format!("err {}", errkind(&e)),
                         }
                     }
@@ -266,10 +285,53 @@ impl HostCtx {
                 let poll = t[0] == "tcp_pwrite";
                 let w = Waker::noop();
                 let mut cx = Context::from_waker(w);
+                // split halves that are both still here: `try_write` exists only on the whole stream, so a
+                // non-polling write reunites them for the call and splits them again (both are no-ops for the stream)
+                if !poll {
+                    if let Some(Obj::Halves(Some(_), Some(_))) = self.slots.get(s).and_then(|x| x.as_ref()) {
+                        if let Some(Obj::Halves(Some(r), Some(w))) = self.take(s) {
+                            let (la, pa) = (r.local_addr().unwrap(), r.peer_addr().unwrap());
+                            match r.reunite(w) {
+                                Ok(st) => {
+                                    let same = st.local_addr().unwrap() == la && st.peer_addr().unwrap() == pa;
+                                    let res = st.try_write(&payload);
+                                    let (r2, w2) = st.into_split();
+                                    self.put(s, Obj::Halves(Some(r2), Some(w2)));
+                                    if !same {
+                                        return "err reunite-changed-addresses".into();
+                                    }
+                                    return match res {
+                                        Ok(n) => format!("ok {n}"),
+                                        Err(e) => format!("err {}", errkind(&e)),
+                                    };
+                                }
+                                Err(e) => {
+                                    let turmoil::net::tcp::ReuniteError(r, w) = e;
+                                    self.put(s, Obj::Halves(Some(r), Some(w)));
+                                    return "err reunite-refused".into();
+                                }
+                            }
+                        }
+                    }
+                }
                 let r = match self.slots.get_mut(s).and_then(|x| x.as_mut()) {
                     Some(Obj::Stream(st)) => {
                         if poll {
-                            Pin::new(st).poll_write(&mut cx, &payload)
+                            // `writable()` and `poll_write` must agree (for a non-empty buffer)
+                            let ready = {
+                                let f = st.writable();
+                                tokio::pin!(f);
+                                f.poll(&mut cx)
+                            };
+                            let res = Pin::new(&mut *st).poll_write(&mut cx, &payload);
+                            if !payload.is_empty() {
+                                match (&ready, &res) {
+                                    (Poll::Ready(Ok(())), Poll::Pending) => return "err writable-but-write-pending".into(),
+                                    (Poll::Pending, Poll::Ready(Ok(_))) => return "err write-ok-but-not-writable".into(),
+                                    _ => {}
+                                }
+                            }
+                            res
                         } else {
                             Poll::Ready(st.try_write(&payload))
                         }
@@ -335,6 +397,48 @@ impl HostCtx {
                     Some(o) => {
                         drop(o);
                         "ok".into()
+                    }
+                    None => "err badslot".into(),
+                }
+            }
+            "tcp_split" | "tcp_reunite" => {
+                // into_split / reunite: no effect on the connection; ok iff both halves are held in this slot
+                let s = slot_of(t[1]);
+                match self.take(s) {
+                    Some(Obj::Stream(st)) => {
+                        if t[0] == "tcp_split" {
+                            let (la, pa) = (st.local_addr().unwrap(), st.peer_addr().unwrap());
+                            let (r, w) = st.into_split();
+                            let same = r.local_addr().unwrap() == la && r.peer_addr().unwrap() == pa
+                                && w.local_addr().unwrap() == la && w.peer_addr().unwrap() == pa;
+                            self.put(s, Obj::Halves(Some(r), Some(w)));
+                            if same { "ok".into() } else { "err split-changed-addresses".into() }
+                        } else {
+                            self.put(s, Obj::Stream(st));
+                            "ok".into()
+                        }
+                    }
+                    Some(Obj::Halves(Some(r), Some(w))) => {
+                        if t[0] == "tcp_reunite" {
+                            match r.reunite(w) {
+                                Ok(st) => {
+                                    self.put(s, Obj::Stream(st));
+                                    "ok".into()
+                                }
+                                Err(e) => {
+                                    let turmoil::net::tcp::ReuniteError(r, w) = e;
+                                    self.put(s, Obj::Halves(Some(r), Some(w)));
+                                    "err reunite-refused".into()
+                                }
+                            }
+                        } else {
+                            self.put(s, Obj::Halves(Some(r), Some(w)));
+                            "ok".into()
+                        }
+                    }
+                    Some(o) => {
+                        self.put(s, o);
+                        "err badslot".into()
                     }
                     None => "err badslot".into(),
                 }
